@@ -21,12 +21,16 @@
   *header* is invariant also when parameters that occur nowhere are respelled (`C13_alpha_header_any`, by the completeness
   of the indexer `C13_indexer_complete`; proofs in `Lemmas/CanonAlphaHeader.lean`). The executable definitions
   (`alphaRename`, `alphaOK`, `setParams`, `hdrVis`, …) are in `CanonAlphaDefs.lean` (core only).
+  Canonicalisation IS a renaming (`C13_canon_is_renaming*`, proofs in `Lemmas/CanonIsRenaming.lean`, executable definitions
+  in `Lemmas/CanonIsRenamingDefs.lean`, core only): `canon item` is the textual renaming of `item` by the computed
+  renaming, followed by the one presentation change of the resolver (`T::A` is printed `<_ŠČn>::A`).
 -/
 import DisjointImpls.Lemmas.CanonLemmas
 import DisjointImpls.Lemmas.CanonIdem
 import DisjointImpls.Lemmas.CanonDeclOrder
 import DisjointImpls.Lemmas.CanonAlpha
 import DisjointImpls.Lemmas.CanonAlphaHeader
+import DisjointImpls.Lemmas.CanonIsRenaming
 import DisjointImpls.Group
 namespace DI
 
@@ -623,5 +627,287 @@ theorem C13_alpha_hidden_counterexample :
     groupIdOf (canon (alphaRename piDead alphaHidden)) ≠ groupIdOf (canon alphaHidden) := by
   refine ⟨?_, ?_, ?_, ?_⟩ <;> with_unfolding_all decide
 end AlphaHeaderExamples
+
+/-! ## Canonicalisation IS a consistent textual renaming of the block
+
+"The rewritten block means the same as the original" amounts, syntactically, to: `canon item` is `item` with its declared
+parameters consistently respelled by the computed renaming `r = (indexImpl item).renaming` — the textual renaming of the
+alpha-invariance section (declarations in `impl<…>`, every lifetime, every lone parameter path, the first segment of every
+longer path; nothing else) — up to the one presentation change the resolver makes: `T::A` is printed `<_ŠČn>::A`.
+**Trusted, not proved**: that `X::rest…` and `<X>::rest…` denote the same path when `X` is a type parameter (Rust's path
+resolution), and that the theorems are about the PARSED tree (a macro body is a verbatim `Eq` leaf: a parameter mentioned
+inside it is invisible to the code and to the model alike, `C13_renaming_macro_body_example`).
+
+Definitions (`Lemmas/CanonIsRenamingDefs.lean`, all executable):
+* `alphaRenameC_cr π item` (tree level `acT_cr`): the textual renaming `alphaRename π item` / `arT`, building for every lone
+  parameter path the node form the decoder gives its NEW spelling — `tparam` / `eparam` for a reserved identifier `_ŠČ…`,
+  a lone `Type::Path` / `Expr::Path` for an ordinary one (`alphaRename` never changes the form of a node, so it is the
+  textual renaming only for maps relating reserved to reserved and ordinary to ordinary names, `formOK`; the canonical
+  renaming maps ordinary names to reserved ones). The two coincide on `formOK` maps (`C13_alphaRenameC_eq_alphaRename`).
+* `qsT_cr P`: every type / expression path `X::rest…` (no qualified self, no leading `::`, no arguments on `X`, at least one
+  more segment) with `P X` is printed `<X>::rest…`, exactly as `qselfPath` / `rsTypePath` / `rsExprPath` print it (an
+  expression path printed that way loses its attributes, as in the code: param.rs:377 replaces the whole `ExprPath`);
+  nothing else changes. `qselfFormOf_cr names` is `qsT_cr` for "`X` is in `names`", `qselfForm_cr` for "`X` is a reserved
+  identifier".
+* `renOK_cr P r t`: EXACTLY what the equation needs of the tree — a path whose first segment is renamed by `r` is a plain
+  `x` / `x::rest…` (the resolver drops a qualified self, a leading `::` and arguments on `x`) whose new first segment
+  satisfies `P` if there are more segments; an expression path whose first segment is a renamed const parameter is the bare
+  identifier (otherwise it is not rewritten at all while its declaration is); a path whose first segment is NOT renamed is
+  not of the form `X::rest…` with `P X`. Nothing about capture, dead parameters or distinct names is needed for the
+  equation itself. -/
+
+/-- **the resolver's output is the textual renaming followed by the presentation change**, on any tree and for any
+    renaming whose new type / const spellings are reserved identifiers (`reservedTargets_cr`, executable) -/
+theorem C13_rs_is_renaming (P : String → Bool) (r : Renaming) (hr : r.reservedTargets_cr = true) (t : T)
+    (h : renOK_cr P r t = true) : rsT r t = qsT_cr P (acT_cr r t) :=
+  rsT_is_renaming_cr P r hr t h
+
+/-- … for the whole block and the computed renaming (its new spellings are reserved: `renaming_reservedTargets_cr`);
+    the condition is evaluated on the block before canonicalisation -/
+theorem C13_canon_is_renaming_of (P : String → Bool) (item : T)
+    (h : renOK_cr P (indexImpl item).renaming item = true) :
+    canon item = qsT_cr P (alphaRenameC_cr (indexImpl item).renaming item) :=
+  canon_is_renaming_of_cr P item h
+
+/-- `canonWF` gives the condition for `P :=` "is one of the canonical names of the type parameters" -/
+theorem C13_canonWF_renOK (item : T) (h : canonWF item = true) :
+    renOK_cr (indexImpl item).renaming.tyNames_cr.contains (indexImpl item).renaming item = true :=
+  canonWF_renOK_cr item h
+
+/-- **canonicalisation IS the textual renaming of the block by the computed renaming**, up to `<_ŠČn>::rest…` for the
+    canonical names `_ŠČn` of the type parameters. Side condition: `canonWF item` (executable) only. -/
+theorem C13_canon_is_renaming (item : T) (h : canonWF item = true) :
+    canon item = qselfFormOf_cr (indexImpl item).renaming.tyNames_cr
+      (alphaRenameC_cr (indexImpl item).renaming item) :=
+  canon_is_renaming_cr item h
+
+/-- … with the presentation change for EVERY reserved identifier (`qselfForm_cr`, no reference to the renaming). Side
+    condition `renamingShapeOK_cr item` (executable, `renOK_cr` for "is a reserved identifier"): it is the shape part of
+    `canonWF` plus "no path `_ŠČk::rest…` of the block starts with a reserved identifier that is not a renamed type
+    parameter" (`C13_renaming_stray_counterexample`); neither `canonWF` nor any no-capture condition is needed -/
+theorem C13_canon_is_renaming_reserved (item : T) (h : renamingShapeOK_cr item = true) :
+    canon item = qselfForm_cr (alphaRenameC_cr (indexImpl item).renaming item) :=
+  canon_is_renaming_of_cr reserved_cr item h
+
+/-- **the computed renaming is an admissible consistent respelling**: `canonWF item` gives every clause of the side
+    condition `alphaOK` of alpha-invariance for `π := (indexImpl item).renaming` (only declared parameters are respelled,
+    the new spellings are pairwise distinct per name space, unreached parameters keep their spelling, no capture) -/
+theorem C13_canonWF_alphaOK (item : T) (h : canonWF item = true) : alphaOK (indexImpl item).renaming item = true :=
+  canonWF_alphaOK_cr item h
+
+/-- the decoder-form renaming is `alphaRename` for maps that relate reserved names to reserved names and ordinary names
+    to ordinary names (`formOK π`), on blocks in decoder normal form (`decNF_cr`, executable: a `tparam` / `eparam` leaf is a
+    reserved identifier, a lone `Type::Path` / `Expr::Path` is not) -/
+theorem C13_alphaRenameC_eq_alphaRename (π : Renaming) (item : T) (hf : formOK π = true) (hn : decNF_cr item = true) :
+    alphaRenameC_cr π item = alphaRename π item :=
+  alphaRenameC_eq_cr π item hf hn
+
+/-- **every occurrence is rewritten**: no old spelling of a renamed parameter is left in parameter position in the
+    canonical block (`noOld_cr`, executable: lifetimes against the lifetime map, `tparam` leaves and first segments of type
+    paths without qualified self against the type map, `eparam` leaves and first segments of expression paths without
+    qualified self against the type and const maps; a name that is also one of the new names of its map may stay). The
+    name spaces are the ones the code knows: a CONST parameter written in type position (`W<N>`, which syn parses as a
+    type) is not an occurrence for it — finding D24, `C13_renaming_const_generic_arg_counterexample`. -/
+theorem C13_canon_all_rewritten (P : String → Bool) (item : T)
+    (h : renOK_cr P (indexImpl item).renaming item = true) :
+    noOld_cr (indexImpl item).renaming (canon item) = true :=
+  canon_noOld_cr P item h
+
+theorem C13_canon_all_rewritten_wf (item : T) (h : canonWF item = true) :
+    noOld_cr (indexImpl item).renaming (canon item) = true :=
+  canon_noOld_cr _ item (canonWF_renOK_cr item h)
+
+/-- **the declared parameter list is renamed position by position**: the `i`-th declaration of the canonical block is
+    the `i`-th declaration of the block with its bounds resolved (`declF r`), of the same kind `k`, its name `y` respelled
+    `rn (r.m k) y` (`r.m k`: the lifetime / type / const map) -/
+theorem C13_canon_params (item : T) (hdecl : implDeclsOK item = true) (hd : namesDistinct (canonCtx item) = true) :
+    implParams (canon item) = (implParams item).map (declF (indexImpl item).renaming) ∧
+    ∀ p ∈ implParams item, ∃ k y, kindSel (kindStr k) p = some y ∧ paramIdent p = some y ∧
+      kindSel (kindStr k) (declF (indexImpl item).renaming p) = some (rn ((indexImpl item).renaming.m k) y) ∧
+      paramIdent (declF (indexImpl item).renaming p) = some (rn ((indexImpl item).renaming.m k) y) :=
+  canon_params_cr item hdecl hd
+
+/-- **nothing that is not an occurrence is rewritten** (frame property): a tree in which no identifier in parameter
+    position — lifetime, `tparam` / `eparam` leaf, first segment of a type or expression path — is renamed by `r` in the map
+    of ITS position (`untouchedP_cr r`: lifetime map / type map / type and const maps; executable through `alP`) is left
+    exactly as it is: trait names, later path segments, field and method names, and identifiers that share their spelling
+    with a parameter of another position (a lifetime `'T` next to a type `T`, a trait `N` next to a const `N`) are kept.
+    The first segment of a QUALIFIED path counts as a parameter position for the code
+    (`C13_renaming_shape_counterexamples`, finding F-C13-qualified-path-trait-capture). -/
+theorem C13_rs_frame (r : Renaming) (t : T) (h : alP (untouchedP_cr r) t = true) : rsT r t = t :=
+  rsT_untouched_cr r t h
+
+namespace Ex13
+/-- `Tr<'T, u8>::N::T`-like: a path `N::T` (trait-ish first segment spelled like the const `N`, later segment `T`), a
+    lifetime `'T`, inside a tuple with `u8` -/
+def crFrame : T := tuple [tyPath [seg "N", seg "T"], .node "Type::Reference" [] [lifetime "T", tyPath [seg "u8"]]]
+/-- `impl<T> Kita for (T, _ŠČ7::Out) {}`: a path that starts with a reserved identifier that is not a parameter -/
+def crStray : T := implOf [tyParam "T" []] (tuple [tyPath [seg "T"], tyPath [seg "_ŠČ7", seg "Out"]])
+/-- `W<a, b>` as syn parses it: both arguments are `GenericArgument::Type` -/
+def wOf (a b : T) : T :=
+  .node "Type::Path" [] [leaf "None", path [.node "PathSegment" [] [.node "Ident" ["W"] [],
+    .node "PathArguments::AngleBracketed" [] [.node "Ign" [] [leaf "None"],
+      .node "List" [] [.node "GenericArgument::Type" [] [a], .node "GenericArgument::Type" [] [b]]]]]]
+/-- `impl<T, const N: usize> Kita for (W<T, N>, [T; N]) {}` (finding D24) -/
+def crConstArg : T := implOf [tyParam "T" [], coParam "N"]
+  (tuple [wOf (tyPath [seg "T"]) (tyPath [seg "N"]), array (tyPath [seg "T"]) (exprPath [seg "N"])])
+/-- `Tr<'x, 'y>` as a path -/
+def trLt2 (x y : String) : T :=
+  path [.node "PathSegment" [] [.node "Ident" ["Tr"] [], .node "PathArguments::AngleBracketed" [] [.node "Ign" [] [leaf "None"],
+    .node "List" [] [.node "GenericArgument::Lifetime" [] [lifetime x], .node "GenericArgument::Lifetime" [] [lifetime y]]]]]
+/-- `for<'b> p` as a bound -/
+def forBound (b : String) (p : T) : T :=
+  .node "TypeParamBound::Trait" [] [.node "TraitBound" [] [leaf "None", leaf "TraitBoundModifier::None",
+    .node "Some" [] [.node "BoundLifetimes" [] [.node "List" [] [ltParam b]]], p]]
+/-- `impl<'a, T: for<'_ŠČ0> Tr<'_ŠČ0, 'a>> Kita<'a> for T {}` (finding F-D38) -/
+def crBinder : T :=
+  implOfW [ltParam "a", tyParam "T" [forBound "_ŠČ0" (trLt2 "_ŠČ0" "a")]] (kitaLt "a") (tyPath [seg "T"]) []
+/-- `impl<T> Kita for (T, m!(T)) {}`: the macro body is a verbatim leaf (finding F-D28) -/
+def crMacro : T := implOf [tyParam "T" []] (tuple [tyPath [seg "T"], .node "Type::Macro" [] [.node "Eq" ["m ! (T)"] []]])
+/-- `impl<T, const N: usize> Kita for [T; #[a] N] {}`: an attribute on a parameter expression -/
+def crAttr : T := implOf [tyParam "T" [], coParam "N"]
+  (array (tyPath [seg "T"]) (.node "Expr::Path" [] [.node "Ign" [] [.node "List" [] [leaf "Attribute"]], leaf "None", path [seg "N"]]))
+end Ex13
+
+section RenamingExamples
+open Ex13
+set_option maxRecDepth 100000
+
+/-- non-vacuity of `C13_canon_is_renaming`, `C13_canon_is_renaming_reserved`, `C13_canon_all_rewritten`,
+    `C13_canonWF_alphaOK` on the three example blocks: the hypotheses hold, and both sides of the equations are computed
+    (user names with a multi-segment path; reserved names in the wrong order; a lifetime, two type parameters, a const
+    parameter, a where-clause and `T::Target`); the renaming is not the identity on any of them -/
+theorem C13_renaming_examples :
+    (canonWF named = true ∧ renamingShapeOK_cr named = true ∧
+      canon named = qselfFormOf_cr ["_ŠČ0", "_ŠČ1"] (alphaRenameC_cr (indexImpl named).renaming named) ∧
+      canon named = qselfForm_cr (alphaRenameC_cr (indexImpl named).renaming named) ∧
+      alphaRenameC_cr (indexImpl named).renaming named ≠ canon named ∧ alphaRenameC_cr (indexImpl named).renaming named ≠ named) ∧
+    (canonWF swapped = true ∧ renamingShapeOK_cr swapped = true ∧
+      canon swapped = qselfForm_cr (alphaRenameC_cr (indexImpl swapped).renaming swapped) ∧ canon swapped ≠ swapped) ∧
+    (canonWF mixed = true ∧ renamingShapeOK_cr mixed = true ∧ (indexImpl mixed).renaming.tyNames_cr = ["_ŠČ1", "_ŠČ3"] ∧
+      canon mixed = qselfFormOf_cr ["_ŠČ1", "_ŠČ3"] (alphaRenameC_cr (indexImpl mixed).renaming mixed) ∧
+      canon mixed = qselfForm_cr (alphaRenameC_cr (indexImpl mixed).renaming mixed) ∧ canon mixed ≠ mixed) ∧
+    (noOld_cr (indexImpl named).renaming (canon named) = true ∧ noOld_cr (indexImpl named).renaming named = false ∧
+      noOld_cr (indexImpl mixed).renaming (canon mixed) = true ∧ noOld_cr (indexImpl mixed).renaming mixed = false) ∧
+    (alphaOK (indexImpl named).renaming named = true ∧ alphaOK (indexImpl mixed).renaming mixed = true ∧
+      alphaOK (indexImpl swapped).renaming swapped = true) := by
+  refine ⟨⟨?_, ?_, ?_, ?_, ?_, ?_⟩, ⟨?_, ?_, ?_, ?_⟩, ⟨?_, ?_, ?_, ?_, ?_, ?_⟩, ⟨?_, ?_, ?_, ?_⟩, ?_, ?_, ?_⟩ <;>
+    with_unfolding_all decide
+
+/-- non-vacuity of the tree-level theorem `C13_rs_is_renaming` (on the self type of `named` and on the whole block) -/
+theorem C13_rs_is_renaming_example :
+    (indexImpl named).renaming.reservedTargets_cr = true ∧
+    renOK_cr reserved_cr (indexImpl named).renaming (tuple [tyPath [seg "T"], tyPath [seg "T", seg "Target"]]) = true ∧
+    rsT (indexImpl named).renaming (tuple [tyPath [seg "T"], tyPath [seg "T", seg "Target"]]) =
+      qsT_cr reserved_cr (tuple [.tparam "_ŠČ0", tyPath [seg "_ŠČ0", seg "Target"]]) ∧
+    acT_cr (indexImpl named).renaming (tuple [tyPath [seg "T"], tyPath [seg "T", seg "Target"]]) =
+      tuple [.tparam "_ŠČ0", tyPath [seg "_ŠČ0", seg "Target"]] := by
+  refine ⟨?_, ?_, ?_, ?_⟩ <;> with_unfolding_all decide
+
+/-- non-vacuity of `C13_rs_frame`: with `T ↦ _ŠČ0` (type), `N ↦ _ŠČ1` (const) the type `(N::T, &'T u8)` — a path whose first
+    segment is spelled like the CONST parameter and whose second like the type parameter, and a lifetime spelled like the
+    type parameter — is left alone, while `T` itself is not untouched -/
+theorem C13_rs_frame_example :
+    alP (untouchedP_cr ⟨[], [("T", "_ŠČ0")], [("N", "_ŠČ1")]⟩) crFrame = true ∧
+    rsT ⟨[], [("T", "_ŠČ0")], [("N", "_ŠČ1")]⟩ crFrame = crFrame ∧
+    alP (untouchedP_cr ⟨[], [("T", "_ŠČ0")], [("N", "_ŠČ1")]⟩) (tyPath [seg "T"]) = false := by
+  refine ⟨?_, ?_, ?_⟩ <;> with_unfolding_all decide
+
+/-- non-vacuity of `C13_alphaRenameC_eq_alphaRename` (`T ↦ A, U ↦ B` on `named`; the swap with a lifetime and a const on
+    `mixed`), and of `C13_canon_params` (its hypotheses are part of `canonWF`) -/
+theorem C13_renaming_form_examples :
+    (formOK piNamed = true ∧ decNF_cr named = true ∧ alphaRenameC_cr piNamed named = namedAB) ∧
+    (formOK piMixed = true ∧ decNF_cr mixed = true ∧ alphaRenameC_cr piMixed mixed = mixedRenamed) ∧
+    (implDeclsOK mixed = true ∧ namesDistinct (canonCtx mixed) = true ∧
+      (implParams (canon mixed)).map paramIdent = [some "_ŠČ0", some "_ŠČ1", some "_ŠČ3", some "_ŠČ2"] ∧
+      (implParams mixed).map paramIdent = [some "a", some "T", some "U", some "N"]) := by
+  refine ⟨⟨?_, ?_, ?_⟩, ⟨?_, ?_, ?_⟩, ?_, ?_, ?_, ?_⟩
+  · decide +kernel
+  · with_unfolding_all decide
+  · with_unfolding_all decide
+  · decide +kernel
+  · with_unfolding_all decide
+  · with_unfolding_all decide
+  · with_unfolding_all decide
+  · with_unfolding_all decide
+  · with_unfolding_all decide
+  · with_unfolding_all decide
+
+/-- the two shape clauses of `renOK_cr` are needed (both are clauses of `canonWF`): a qualified path whose trait is
+    spelled like a type parameter (`<T as Clone>::Out` with a parameter `Clone` — finding
+    F-C13-qualified-path-trait-capture: the resolver prints `<_ŠČ1>::Out` and drops `T as`), and a const parameter at the
+    head of a longer path (`N::X`: not rewritten while the declaration is). Neither block satisfies `renOK_cr` for any
+    `P` used here, and the canonical block is not the renamed block -/
+theorem C13_renaming_shape_counterexamples :
+    (renOK_cr (indexImpl cxQself).renaming.tyNames_cr.contains (indexImpl cxQself).renaming cxQself = false ∧
+      renamingShapeOK_cr cxQself = false ∧
+      canon cxQself ≠ qselfFormOf_cr (indexImpl cxQself).renaming.tyNames_cr (alphaRenameC_cr (indexImpl cxQself).renaming cxQself) ∧
+      canon cxQself ≠ qselfForm_cr (alphaRenameC_cr (indexImpl cxQself).renaming cxQself)) ∧
+    (renOK_cr (indexImpl cxConst).renaming.tyNames_cr.contains (indexImpl cxConst).renaming cxConst = false ∧
+      renamingShapeOK_cr cxConst = false ∧
+      canon cxConst ≠ qselfFormOf_cr (indexImpl cxConst).renaming.tyNames_cr (alphaRenameC_cr (indexImpl cxConst).renaming cxConst) ∧
+      canon cxConst ≠ qselfForm_cr (alphaRenameC_cr (indexImpl cxConst).renaming cxConst)) := by
+  refine ⟨⟨?_, ?_, ?_, ?_⟩, ?_, ?_, ?_, ?_⟩ <;> with_unfolding_all decide
+
+/-- `impl<T> Kita for (T, _ŠČ7::Out)`: `canonWF` holds and `C13_canon_is_renaming` applies; the resolver keeps
+    `_ŠČ7::Out` (`_ŠČ7` is no parameter) while `qselfForm_cr` would print `<_ŠČ7>::Out`: the third clause of
+    `renamingShapeOK_cr` is needed for `C13_canon_is_renaming_reserved` -/
+theorem C13_renaming_stray_counterexample :
+    canonWF crStray = true ∧ renamingShapeOK_cr crStray = false ∧
+    canon crStray = qselfFormOf_cr ["_ŠČ0"] (alphaRenameC_cr (indexImpl crStray).renaming crStray) ∧
+    canon crStray ≠ qselfForm_cr (alphaRenameC_cr (indexImpl crStray).renaming crStray) := by
+  refine ⟨?_, ?_, ?_, ?_⟩ <;> with_unfolding_all decide
+
+/-- **finding D24 is INSIDE `canonWF`**: `impl<T, const N: usize> Kita for (W<T, N>, [T; N])`. syn parses the bare generic
+    argument `N` as a type; the indexer reaches `N` through `[T; N]`, the declaration becomes `const _ŠČ1`, `[T; N]` becomes
+    `[_ŠČ0; _ŠČ1]`, and `W<T, N>` becomes `W<_ŠČ0, N>` — `N` is no longer declared. `canonWF` holds, `C13_canon_is_renaming`
+    applies (the textual renaming of the alpha-invariance section has the same per-position name spaces as the code), and
+    `noOld_cr` holds because `N` in type position is not an occurrence of a TYPE parameter: the canonical block is not a
+    consistent renaming in Rust's sense although it is the textual one -/
+theorem C13_renaming_const_generic_arg_counterexample :
+    canonWF crConstArg = true ∧ (indexImpl crConstArg).renaming = ⟨[], [("T", "_ŠČ0")], [("N", "_ŠČ1")]⟩ ∧
+    canon crConstArg = qselfForm_cr (alphaRenameC_cr (indexImpl crConstArg).renaming crConstArg) ∧
+    (implParams (canon crConstArg)).map paramIdent = [some "_ŠČ0", some "_ŠČ1"] ∧
+    implSelfTy (canon crConstArg) =
+      some (tuple [wOf (.tparam "_ŠČ0") (tyPath [seg "N"]), array (.tparam "_ŠČ0") (.eparam "_ŠČ1")]) ∧
+    noOld_cr (indexImpl crConstArg).renaming (canon crConstArg) = true := by
+  refine ⟨?_, ?_, ?_, ?_, ?_, ?_⟩ <;> with_unfolding_all decide
+
+/-- **binder capture (finding F-D38) is OUTSIDE `canonWF`** and is a property of the renaming, not of the equation:
+    `impl<'a, T: for<'_ŠČ0> Tr<'_ŠČ0, 'a>> Kita<'a> for T` — `'a` becomes `'_ŠČ0` and is captured by the binder. The equation
+    holds (`renamingShapeOK_cr`), the no-capture clauses fail (`rsOK`, `alOK`), so `canonWF` and `alphaOK` are false -/
+theorem C13_renaming_binder_counterexample :
+    renamingShapeOK_cr crBinder = true ∧
+    canon crBinder = qselfForm_cr (alphaRenameC_cr (indexImpl crBinder).renaming crBinder) ∧
+    (indexImpl crBinder).renaming = ⟨[("a", "_ŠČ0")], [("T", "_ŠČ1")], []⟩ ∧
+    implParams (canon crBinder) = [ltParam "_ŠČ0", tyParam "_ŠČ1" [forBound "_ŠČ0" (trLt2 "_ŠČ0" "_ŠČ0")]] ∧
+    rsOK (canonCtx crBinder) crBinder = false ∧ alOK (canonCtx crBinder) crBinder = false ∧ canonWF crBinder = false ∧
+    alphaOK (indexImpl crBinder).renaming crBinder = false := by
+  refine ⟨?_, ?_, ?_, ?_, ?_, ?_, ?_, ?_⟩ <;> with_unfolding_all decide
+
+/-- dead parameters (finding D21) are consistent with the equation: a declared parameter the indexer never reaches is
+    not renamed by the computed renaming, so it keeps its spelling on both sides (`impl<T, D> Kita for T`) -/
+theorem C13_renaming_dead_example :
+    canonWF alphaDead = true ∧ (indexImpl alphaDead).renaming = ⟨[], [("T", "_ŠČ0")], []⟩ ∧
+    canon alphaDead = qselfForm_cr (alphaRenameC_cr (indexImpl alphaDead).renaming alphaDead) ∧
+    (implParams (canon alphaDead)).map paramIdent = [some "_ŠČ0", some "D"] := by
+  refine ⟨?_, ?_, ?_, ?_⟩ <;> with_unfolding_all decide
+
+/-- macro bodies (finding F-D28): the theorems are about the parsed tree; `m!(T)` is a verbatim leaf that neither the
+    resolver nor the textual renaming looks into, so the `T` inside it keeps its spelling on both sides -/
+theorem C13_renaming_macro_body_example :
+    canonWF crMacro = true ∧
+    canon crMacro = qselfForm_cr (alphaRenameC_cr (indexImpl crMacro).renaming crMacro) ∧
+    implSelfTy (canon crMacro) = some (tuple [.tparam "_ŠČ0", .node "Type::Macro" [] [.node "Eq" ["m ! (T)"] []]]) := by
+  refine ⟨?_, ?_, ?_⟩ <;> with_unfolding_all decide
+
+/-- the attributes of a parameter expression are dropped by the resolver (param.rs:377, 380: the whole `ExprPath` /
+    `Expr` is replaced): `[T; #[a] N]` becomes `[_ŠČ0; _ŠČ1]`. The decoder-form renaming does the same (a leaf has no
+    attributes; they are an ignored child, invisible to the matcher) -/
+theorem C13_renaming_attrs_dropped_example :
+    canonWF crAttr = true ∧ implSelfTy (canon crAttr) = some (array (.tparam "_ŠČ0") (.eparam "_ŠČ1")) ∧
+    canon crAttr = qselfForm_cr (alphaRenameC_cr (indexImpl crAttr).renaming crAttr) := by
+  refine ⟨?_, ?_, ?_⟩ <;> with_unfolding_all decide
+end RenamingExamples
 
 end DI
